@@ -260,11 +260,13 @@ def runHistory (m : QMap) : List Access → QMap × List (List Dep)
     ((runHistory (m.record a.res a.node a.kind).1 rest).1,
      (m.record a.res a.node a.kind).2 :: (runHistory (m.record a.res a.node a.kind).1 rest).2)
 
-/-- the edges a history induces: every reported dependency other than the action itself -/
-def historyEdges (m : QMap) : List Access → List (Node × Node)
+/-- the edges a history induces: every reported dependency other than the action itself, labelled with
+the kind the dependency was reported with (as graph.rs:251-257 does for memory) -/
+def historyEdges (m : QMap) : List Access → List Edge
   | [] => []
   | a :: rest =>
-    ((m.record a.res a.node a.kind).2.filter (fun d => d.node ≠ a.node)).map (fun d => (d.node, a.node))
+    ((m.record a.res a.node a.kind).2.filter (fun d => d.node ≠ a.node)).map
+      (fun d => ⟨d.node, a.node, .await d.kind⟩)
     ++ historyEdges (m.record a.res a.node a.kind).1 rest
 
 /-! ### Label-filtered reachability, as a Prop and as a fuel-bounded Bool search -/
